@@ -52,10 +52,14 @@ def contracts():
             final(w).fs.modes[file_path_spec(*fm, file_type)] == mode_cfg(*fm, file_type), //@C13.created_with_configured_mode
         // C10/C13: pre hook, open, write, (chown), post hook - in this order, create or edit consistently
         r is Ok ==> final(w).fs.events == old(w).fs.events + write_trace(*fm, file_type, !old(w).fs.files.contains_key(file_path_spec(*fm, file_type))), //@C10.file_hook_bracket,C13.chown_after_write
+        // whatever happens (a hook that fails, an unwritable target), what has been done so far is the beginning of that
+        // sequence: in particular an installed file is opened - and emptied - only once its pre-edit hooks have succeeded
+        adds_a_beginning_of(old(w).fs.events, final(w).fs.events,
+            write_trace(*fm, file_type, !old(w).fs.files.contains_key(file_path_spec(*fm, file_type)))), //@C03.installed_file_is_touched_only_after_its_pre_hooks,C10.file_hook_bracket
 """, at=[("before_stmt", "Ok(())", 1, """
     proof {
         let p = file_path_spec(*fm, file_type);
-        assert(w.fs.events =~= old(w).fs.events + write_trace(*fm, file_type, !old(w).fs.files.contains_key(p)));
+        assert(w.fs.events =~= old(w).fs.events + write_trace(*fm, file_type, !old(w).fs.files.contains_key(p))); //@C10.file_hook_bracket,C13.chown_after_write
     }""")])
     for name, ft in [("set_account_data", "Account"), ("write_certificate", "Certificate")]:
         c[name] = FnSpec(ret="r", ghost=True, sig=c["write_file"].sig.replace("file_type", f"FileType::{ft}"))
@@ -130,7 +134,7 @@ def build():
     c = contracts()
     u.stub(S, "get_file_full_path", "storage", fns={"get_file_full_path": c["get_file_full_path"]})
     for name, props in [("get_file_path", ["C02"]), ("read_file", ["C02"]), ("set_owner", ["C13"]),
-                        ("write_file", ["C02", "C13", "C10"]), ("get_account_data", ["C11"]),
+                        ("write_file", ["C02", "C13", "C10", "C03"]), ("get_account_data", ["C11"]),
                         ("set_account_data", ["C02", "C13"]), ("get_keypair_path", ["C02"]), ("get_keypair", ["C01"]),
                         ("set_keypair", ["C02", "C13"]), ("get_certificate_path", ["C02"]), ("get_certificate", ["C06"]),
                         ("write_certificate", ["C02", "C13"]), ("check_files", ["C06"]),
@@ -227,6 +231,16 @@ pub open spec fn gid_spec(o: Option<String>) -> Option<u32> {
 pub open spec fn hook_ev(fm: FileManager, t: FileType, ty: HookType) -> FsEvent {
     FsEvent::Hook { ty: crate::hooks::hook_type_id(ty),
         data: crate::hooks::file_hook_data_id(file_name_spec(fm, t), file_dir_spec(fm, t), file_path_spec(fm, t)) }
+}
+// the kind of an effect (which hook type / open / write / chown), without its details
+pub open spec fn ev_kind(e: FsEvent) -> int {
+    match e { FsEvent::Hook { ty, .. } => ty, FsEvent::Open { .. } => 100, FsEvent::Write { .. } => 101, FsEvent::Chown { .. } => 102 }
+}
+// b continues a, and what it adds is, kind by kind, a beginning of t
+pub open spec fn adds_a_beginning_of(a: Seq<FsEvent>, b: Seq<FsEvent>, t: Seq<FsEvent>) -> bool {
+    a.len() <= b.len() && b.len() - a.len() <= t.len()
+    && (forall|i: int| 0 <= i < a.len() ==> a[i] == b[i])
+    && (forall|i: int| a.len() <= i < b.len() ==> ev_kind(b[i]) == ev_kind(t[i - a.len()]))
 }
 // the observable trace of one successful write_file
 pub open spec fn write_trace(fm: FileManager, t: FileType, is_new: bool) -> Seq<FsEvent> {
